@@ -17,6 +17,7 @@ mod w2_ops;
 mod w2_str;
 mod w2_vec;
 mod w3;
+mod w67;
 
 #[global_allocator]
 static SIM: simalloc::SimAlloc = simalloc::SimAlloc;
